@@ -76,10 +76,12 @@ DTile(m) == C!Tile(m, C!NoRange)
 AllU(m) == C!AllUndef("Float", m)
 
 \* ---------------------------------------------------------------- the sampler
-\* Source image k at pixel (r, col) of tile p: one of 1/16, 1/4, 9/16, 1 (bytes 63, 127, 191, 255 after the
-\* transform); neighbouring pixels, neighbouring tiles and the two sources all differ.
-Vals == <<1, 4, 9, 16>>
-SrcPx(k, p, r, col) == <<C!Norm(Vals[((p[1] + p[2] + 2 * p[3] + 3 * r + col + k) % 4) + 1], 16)>>
+\* Source image k at pixel (r, col) of tile p: one of seven values in (0, 1] (sixteenths); the index mixes tile and
+\* pixel coordinates non-linearly so that tiles, quadrants, rows, columns and the sources all differ (a misplaced,
+\* stale or swapped tile shows in the values, also after two levels of averaging).
+Vals == <<1, 2, 4, 6, 9, 12, 16>>
+SrcPx(k, p, r, col) ==
+    <<C!Norm(Vals[((p[1] + 3 * p[2] + 5 * p[3] + p[2] * p[3] + 7 * r + 11 * col + r * col + 13 * k + 2 * k * (r + p[2])) % 7) + 1], 16)>>
 \* the sampler is defined on a band of columns of the unit square, whatever the depth
 Covered(d, p, col, reg) == LET g == p[2] * T + (col - 1)
                                w == Pow2(d) * T
@@ -271,7 +273,6 @@ TransformOperator == \A s \in 0..MaxDepth :
     /\ \A p \in Pos : (r[p].ex /\ r[p] # out[p]) => (data[p].ex /\ p[1] <= s)
     /\ TransformResult(r, data, s) = r
     /\ StaleOut(out, data, s) <=> (r # TransformIdeal(out, data, s))
-TransformKeepsData == [][\A cmd \in Commands : TransformStep(cmd, TRUE) \/ TransformStep(cmd, FALSE) => data' = data]_vars
 \* (10) without shrinking, outputs exist only where data exists
 NoShrinkNoStaleOutput == ~shrunk => OutPos \subseteq DataPos
 \* (11) Transform before Cascade covers only the levels that existed: Sample(d); Transform(d); Cascade(d) leaves the
